@@ -162,11 +162,36 @@ def check_style(ctx, case, by_construction=False):
         results["single-call"] = AnsiFormatter(forced=True).format("x", make_style(None, fg, bg, attrs))
         p = PlainFormatter(StyleSet([make_style("t", fg, bg, attrs)]))
         results["plain"] = p.format(tagged)
+        # a style added AFTER the formatter has already stripped / rendered something
+        late = AnsiFormatter(forced=True)
+        late.remove_format("warm " + LT + "b" + GT + "up" + LT + "/b" + GT)
+        late.format("warm up")
+        late.add_style(make_style("t", fg, bg, attrs))
+        results["late-remove_format"] = late.remove_format(tagged)
+        results["late-format"] = late.format(tagged)
+        if attrs % 8 == 0:
+            from clikit.api.io import Output
+            from clikit.io.output_stream import BufferedOutputStream
+
+            stream = BufferedOutputStream()
+            undecorated = Output(stream, AnsiFormatter())  # not forced, stream without ANSI support
+            undecorated.write("warm up ")
+            undecorated.formatter.add_style(make_style("t", fg, bg, attrs))
+            undecorated.write(tagged)
+            results["late-undecorated-output"] = stream.fetch()
     except Exception as e:
         ctx.fail("style", "C11.sgr", case, sorted(want), None, exc=e)
         return
     if results["plain"] != "x":
         ctx.fail("style", "C11.plain-clean", case, "x", results["plain"], sig="plain-style")
+    if results["late-remove_format"] != "x":
+        ctx.fail("style", "C11.same-text", case, "x", {"remove_format after add_style": results["late-remove_format"]},
+                 sig="late-style-remove-format")
+    if results["late-format"] != results["add_style"]:
+        ctx.fail("style", "C11.sgr", case, results["add_style"], {"format after add_style": results["late-format"]},
+                 sig="late-style-format")
+    if results.get("late-undecorated-output", "warm up x") != "warm up x":
+        ctx.fail("style", "C11.plain-clean", case, "warm up x", results["late-undecorated-output"], sig="late-style-undecorated")
     for way in ("style-set", "add_style", "single-call"):
         got = results[way]
         if not want:
